@@ -1,6 +1,7 @@
 SPECIFICATION Spec
 CONSTANTS MaxPlan = 2
  CatalogName = "small"
+ OptsName = "two"
 INVARIANT Confined
 INVARIANT Exact
 INVARIANT DryRunNoop
